@@ -455,6 +455,14 @@ def _check_delete(repo, r5, ci):
         if ys and all(y[1] == ("sub", ("var", "self"), ("elem", ("call", ("fn", "range"), (("call", ("fn", "len"), (("var", "self"),), ()),), ()))) for y in ys):
             okit = True
     r5.require(okit, it, "iteration covers range(len(self))", "__iter__ no longer yields every index")
+    # membership / search / reversal are the Sequence mixins over __getitem__ and __len__ (item by item): a byte-level shortcut over
+    # the chunk files does not respect item boundaries
+    for c2 in (wrap, ci):
+        for nm in ("__contains__", "index", "count", "__reversed__"):
+            if nm in c2.methods:
+                r5.fail_fn(c2.methods[nm], c2.methods[nm].node, "%s overridden in %s" % (nm, c2.name),
+                           "%s.%s replaces the item-by-item Sequence mixin: the list model compares whole items at item positions; a scan of the raw chunk bytes (find / "
+                           "count) also matches across item boundaries or stops at a misaligned first hit" % (c2.name, nm))
     for c2 in (wrap, ci):
         for nm in ("clear", "__delitem__", "_set_all_zeros_by_index"):
             if nm in c2.methods:
